@@ -96,6 +96,7 @@ FLAGS = ["<cond>a", "<cond>b"]
 IDS_LIKE = ["tmp", "tmp_0", "temp", "temp_0", "ifthenelse_cond", "ifthenelse_then", "ifthenelse_else",
             "ifthenelse_cond_0"]
 FUNCS = ["<func>f", "<func>g", "<builtin>norm_2"]
+_CALLED = [FUNCS[:2]]       # the functions the tree being written calls (set per tree by h_tree)
 
 
 def h_expr(rng, d, names, allow_if=True, allow_call=True):
@@ -120,7 +121,7 @@ def h_expr(rng, d, names, allow_if=True, allow_call=True):
                 h_expr(rng, d - 1, names, allow_if, allow_call)]
     if r < 0.7 and allow_call:
         kws = rng.sample(["k", "m"], rng.choice([0, 0, 1, 2]))
-        return ["call", rng.choice(FUNCS[:2]), [h_expr(rng, d - 1, names, allow_if) for _ in range(rng.choice([1, 2]))],
+        return ["call", rng.choice(_CALLED[0]), [h_expr(rng, d - 1, names, allow_if) for _ in range(rng.choice([1, 2]))],
                 {k: h_expr(rng, d - 1, names, allow_if) for k in kws}]
     if r < 0.9 and allow_if:
         c = ["cmp", rng.choice(["<", ">", "=="]), h_expr(rng, d - 1, names, allow_if, allow_call),
@@ -184,7 +185,7 @@ def h_stmt(rng, sid, names):
         args = [h_expr(rng, 2, names) for _ in range(rng.choice([1, 2]))]
         if rng.random() < 0.3:
             args[0] = ["var", lhs]        # self-dependent call statement
-        return {"k": "call", "lhs": [lhs], "f": rng.choice(FUNCS[:2]), "args": args,
+        return {"k": "call", "lhs": [lhs], "f": rng.choice(_CALLED[0]), "args": args,
                 "kw": {k_: h_expr(rng, 1, names) for k_ in kws}, "cond": cond, "id": sid}
     return {"k": "yield", "expr": h_expr(rng, 2, names), "time": ["var", "<t>"], "cond": cond, "id": sid}
 
@@ -195,6 +196,11 @@ def h_tree(rng):
         # names with upper-case letters, and the temporaries' names spelt the same way (names are case sensitive)
         names = ["x", "Y", "yNew", "<state>y", "<p>K"] + rng.sample(["temp_Y", "temp_yNew", "temp_y", "Tmp", "tmp", "TMP_0",
                                                                       "temp__p_K", "ifthenelse_Result"], rng.randint(2, 5))
+    _CALLED[0] = FUNCS[:2]
+    if rng.random() < 0.15:
+        # a user function registered under the plain name of one of the tree's variables ('y <- y(y) + 1'):
+        # functions and variables live in separate namespaces
+        _CALLED[0] = ["<func>f", rng.choice(names[:3])]
     n = rng.randint(1, 7)
     ids = []
     pool = [f"s{i}" for i in range(10)] + IDS_LIKE
